@@ -421,7 +421,7 @@ def fam_lock(tier, base):
     b = verif.build_driver("locks")
     t1, t2 = base + ".t1", base + ".t2"
     verif.run_driver(b, "TestLockContention", env={"VERIF_TRACE": t1, "VERIF_RUNS": 2 if q else 16, "VERIF_CYCLES": 15 if q else 40, "VERIF_CROWDS": 3 if q else 12}, timeout=7000)
-    verif.run_driver(b, "TestLockLoss", env={"VERIF_TRACE": t2, "VERIF_RUNS": 2 if q else 12}, timeout=7000)
+    verif.run_driver(b, "TestLockLoss", env={"VERIF_TRACE": t2, "VERIF_RUNS": 4 if q else 16}, timeout=7000)
     with open(trace, "w") as f:
         f.write(open(t1).read() + open(t2).read())
     os.remove(t1); os.remove(t2)
@@ -612,6 +612,18 @@ def fam_cluster(tier, base):
         f.write("\n".join(sel) + "\n")
     b = verif.build_driver("cluster")
     verif.run_driver_sharded(b, "TestClusterFaults", inputs, trace, shards=14, timeout=7000)
+    # the deployments again with the redis metadata store (C13: both backends): fault mode, sampled placements
+    rin, rtrace = base + ".redis.in.ndjson", base + ".redis.trace.ndjson"
+    with open(rin, "w") as f:
+        for x in sel:
+            d = json.loads(x)
+            if d["op"]["kind"] in ("create", "lambda") and d["mode"] != "crash" and (not q or (d["op"]["req"] == "b" and d["nodes"][0]["kind"] == "plain2")):
+                d["every"] = 3 if d["op"]["kind"] == "create" else 1
+                f.write(json.dumps(d) + "\n")
+    verif.run_driver_sharded(b, "TestClusterFaults", rin, rtrace, shards=14, timeout=7000, env={"VERIF_STORE": "redis"})
+    with open(trace, "a") as f:
+        f.write(open(rtrace).read())
+    os.remove(rin); os.remove(rtrace)
     os.remove(inputs)
     viols, tr = verif.validate_trace("Trace_Cluster", "Trace_Cluster.cfg", trace, heap="16g")
     lines = verif.read_lines(trace)
@@ -631,7 +643,7 @@ _A_CL = ["real calcium.Calcium on an embedded etcd with the real cobalt manager 
 prop("C10", "cluster", "every scenario x every sampled single-fault placement; after each run (and in each pre-state, itself built through the API) every node's usage is compared with the sum of its recorded workloads per component, with capacity, and with the node resource check; non-trivial = runs", _A_CL)
 prop("C11", "cluster", "same runs; an operation (or per-workload part) that reports failure must leave pods, nodes, capacity, usage and workloads as before; non-trivial = runs with an injected failure", _A_CL)
 prop("C12", "cluster", "create scenarios (4 strategies x counts x requests x include lists x pre-states) fault-free and with every sampled fault: stream closes, one error or one message per planned instance (planned = sum of the allocation calls), each success recorded + started + placed as reported, failures leave nothing; non-trivial = create runs", _A_CL)
-prop("C13", "cluster", "create scenarios: after EVERY external call of the deployment the real deploy status and the recorded workloads are read (under the gate) and compared with prior + planned; after return no marker of the application remains; non-trivial = observations", _A_CL + ["etcd store only in this family; the redis counting rule is covered by the store family (C23) through the same reference"])
+prop("C13", "cluster", "create scenarios: after EVERY external call of the deployment the real deploy status and the recorded workloads are read (under the gate) and compared with prior + planned; after return no marker of the application remains; non-trivial = observations", _A_CL + ["observed on the etcd store for every scenario and on the redis store (miniredis) for the deployment scenarios (sampled placements); the marker arithmetic under concurrent instance recording is the store_conc family (etcd: redis executes it in one Lua script)"])
 prop("C14", "cluster", "create / remove / replace scenarios with a crash before each sampled external call, then recovery in a fresh instance; non-trivial = crashes", _A_CL)
 prop("C30", "cluster", "run-and-wait scenarios: count 1-3 x bound/unbound request x stdin or not x engine outcome {exit 0, exit 3, logs fail, wait fails, attach fails} over the node layouts; message stream + state after the stream closed; non-trivial = run-and-wait runs", _A_CL)
 prop("C22", "cluster", "referential consistency predicates on every pre- and post-state of the runs (sequential and faulted); concurrent histories are the cluster_conc family; non-trivial = runs", _A_CL)
